@@ -1244,7 +1244,7 @@ func main() {
 		Gen:    gen,
 		Exec:   exec,
 		Corpus: corpus(),
-		N:      map[string]int{"quick": 200, "thorough": 1500},
+		N:      map[string]int{"quick": 200, "thorough": 1000},
 		Init:   setup,
 	})
 }
